@@ -128,6 +128,103 @@ def vmsa_task(task):
     return out
 
 
+# ---------------------------------------------------------------------------------------------------------------------
+# long-descriptor format (LPAE): 3 levels of 64-bit descriptors.  Memory: device 1 = TTBR1 tables, device 2 = TTBR0
+# tables (level 1 at +0, three level-2 tables at +0x1000 ..), device 3 = four level-3 tables shared by both.
+LCFG = dict(arch_version=7, memory_system_architecture='VMSA', memory_list=MEM, have_lpae=True)
+MAIR_MENU = [0x00, 0x04, 0xFF, 0x44, 0xBB, 0xEE, 0x4F, 0x0C, 0x40, 0x24]
+
+
+def ld_desc(rnd, level, tabbase):
+    """64-bit descriptor for `level`; tables of the next level live at tabbase + k * 0x1000"""
+    r = rnd.random()
+    upper = (rnd.getrandbits(1) << 54) | (rnd.getrandbits(1) << 53) | (rnd.getrandbits(1) << 52)
+    af = 0 if rnd.random() < 0.08 else 1
+    lower = (rnd.getrandbits(1) << 11) | (af << 10) | (rnd.getrandbits(2) << 8) | (rnd.getrandbits(2) << 6) | \
+        (rnd.getrandbits(1) << 5) | (rnd.randrange(8) << 2)
+    if r < 0.12:
+        return rnd.getrandbits(63) << 1                                            # invalid
+    if level < 3 and r < 0.55:
+        k = rnd.randrange(3 if level == 1 else 4)
+        tattr = (rnd.getrandbits(5) << 59) if rnd.random() < 0.3 else 0             # NSTable / APTable / XNTable / PXNTable
+        ext = (rnd.randrange(1, 4) << 32) if rnd.random() < 0.04 else 0
+        return tattr | ext | (tabbase[level] + k * 0x1000) | 3                      # table
+    oa = rnd.choice([0, 0, 0x40000000, 0x80200000, 0xFFE00000, rnd.getrandbits(32)])
+    ext = (rnd.randrange(1, 256) << 32) if rnd.random() < 0.15 else 0
+    if level == 3:
+        if r < 0.62:
+            return upper | (oa & 0xFFFFF000) | lower | 1                            # reserved at level 3: invalid
+        return upper | ext | (oa & 0xFFFFF000) | lower | 3                          # page
+    lsb = 30 if level == 1 else 21
+    return upper | ext | (oa & ~((1 << lsb) - 1) & 0xFFFFFFFF) | lower | 1          # block
+
+
+def put64(mem, off, v, be):
+    mem[off:off + 8] = list(v.to_bytes(8, 'big' if be else 'little'))
+
+
+def vmsa_ld_task(task):
+    rnd = random.Random(task['seed'])
+    proto = S.mk_group(dict(task, cfg=LCFG))
+    out = []
+    for t in range(task['tables']):
+        g = C.Group.__new__(C.Group)
+        g.__dict__.update(proto.__dict__)
+        g.name = '%s-t%d' % (task['name'], t)
+        g.events, g.meta = [], {}
+        st = proto.fresh()
+        C.randomize(st, rnd, mode=rnd.choice([16, 19, 31, 17]), thumb=False, pc=0x40)
+        ee = rnd.getrandbits(1) if rnd.random() < 0.3 else 0
+        t0sz, t1sz = rnd.choice([0, 0, 1, 2, 3, 7]), rnd.choice([0, 0, 1, 2, 5])
+        sct = (C.unlimbs(g.base['sys']['SCTLR']) & ~((1 << 25) | (1 << 29) | (1 << 28) | 1 | 2)) | (1 << 22)
+        st['sys']['SCTLR'] = limbs(sct | (ee << 25) | (rnd.getrandbits(1) << 29) | (1 << 28) | 1)
+        epd = (rnd.getrandbits(1) << 7 if rnd.random() < 0.1 else 0) | (rnd.getrandbits(1) << 23 if rnd.random() < 0.1 else 0)
+        st['sys']['TTBCR'] = limbs((1 << 31) | t0sz | (t1sz << 16) | epd | (rnd.getrandbits(6) << 8) | (rnd.getrandbits(6) << 24))
+        # first lookup level and table base for each TTBR: level 1 (T*SZ < 2) -> the 4-entry table, else a level-2 table
+        # placed at a slot aligned to 2^(14 - T*SZ) only
+        def base_for(dev_base, tsz):
+            if tsz < 2:
+                return dev_base + (rnd.randrange(4) << 5 if tsz == 0 else rnd.randrange(8) << 4)
+            return dev_base + 0x1000 + (rnd.randrange(1 << (tsz - 2)) << (14 - tsz))
+        b0, b1 = base_for(0x8000, t0sz), base_for(0x4000, t1sz)
+        hi0 = rnd.randrange(1, 4) if rnd.random() < 0.04 else 0
+        st['sys']['TTBR0'], st['sys']['TTBR0H'] = limbs(b0 | (rnd.getrandbits(3) if rnd.random() < 0.1 else 0)), limbs(hi0)
+        st['sys']['TTBR1'], st['sys']['TTBR1H'] = limbs(b1), limbs(0)
+        st['sys']['MAIR0'] = limbs(sum(rnd.choice(MAIR_MENU) << (8 * i) for i in range(4)))
+        st['sys']['MAIR1'] = limbs(sum(rnd.choice(MAIR_MENU) << (8 * i) for i in range(4)))
+        st['sys']['FCSEIDR'] = limbs(rnd.choice([0, 0, 5 << 25]))
+        st['sys']['DFSR'] = limbs(0)
+        d1, d0, d3 = st['mem']['base'][1], st['mem']['base'][2], st['mem']['base'][3]
+        for dev, devbase in ((d0, 0x8000), (d1, 0x4000)):
+            tb = {1: devbase + 0x1000, 2: 0xC000}
+            for off in range(0, 0x1000, 8):                       # level-1 area (the walk uses 2..4 entries of it)
+                put64(dev, off, ld_desc(rnd, 1, tb), ee)
+            for k in range(3):
+                for off in range(0, 0x1000, 8):
+                    put64(dev, 0x1000 + k * 0x1000 + off, ld_desc(rnd, 2, tb), ee)
+        for off in range(0, 0x4000, 8):
+            put64(d3, off, ld_desc(rnd, 3, {}), ee)
+        C.M.inject(g.arm, dict(st, osys={}, memsz=[]))
+        g.base = C.M.project(g.arm)
+        out.append(g)
+        for _ in range(task['per_table']):
+            r = rnd.random()
+            if r < 0.6:
+                va = rnd.getrandbits(32)
+            elif r < 0.8:
+                edge = (1 << (32 - t0sz)) if t0sz else 0
+                va = (edge + rnd.choice([-1, 0, 1, -0x1000])) & 0xFFFFFFFF
+            elif r < 0.9:
+                va = (0xFFFFFFFF >> t1sz << t1sz if False else (~((1 << (32 - t1sz)) - 1)) & 0xFFFFFFFF) + rnd.choice([-1, 0, 0xFFF])
+                va &= 0xFFFFFFFF
+            else:
+                va = rnd.getrandbits(21)
+            act = {'n': 'Translate', 'addr': limbs(va), 'size': rnd.choice([1, 2, 4]), 'priv': bool(rnd.getrandbits(1)),
+                   'iswrite': bool(rnd.getrandbits(1)), 'aligned': rnd.random() < 0.85}
+            g.add(st, act, meta={'va': va, 't0sz': t0sz, 't1sz': t1sz, 'ee': ee, 'ld': True})
+    return out
+
+
 def clause_filter(c, v, e):
     return (v['path'].startswith(('memapi', 'exact', 'notimpl')) and c not in ('range', 'confine', 'nop-on-condfail')) or c == 'hosterror'
 
@@ -137,6 +234,7 @@ def run(ctx):
     q = ctx.quick
     ctx.mc('MC_VMSA', coverage=False, timeout=3000)
     tasks = [(vmsa_task, dict(name='vmsa-%d' % i, seed=ctx.seed + i, tables=6 if q else 120, per_table=40)) for i in range(16)]
+    tasks += [(vmsa_ld_task, dict(name='lpae-%d' % i, seed=ctx.seed + 50 + i, tables=3 if q else 60, per_table=50)) for i in range(16)]
     groups = C.parallel(_dispatch, tasks)
     res = C.judge_groups(ctx, groups, clause_filter, rnd=rnd, chunk=1500,
                          site_of=lambda e, v: e['act']['n'] if e['act']['n'] != 'Step' else (e.get('cls') or v['path']),
